@@ -621,7 +621,9 @@ func lastLines(s string, n int) string {
 // same cover label (Serval-style validation of the encoder and stubs).
 func validateCovers(prop string, h HarnessSpec, models map[string]map[string]string, overlayFiles map[string]string, pkg *ssa.Package) (int, []string) {
 	dir := filepath.Join(os.TempDir(), fmt.Sprintf("vcheck-validate-%s-%s-%d", prop, h.Func, os.Getpid()))
-	defer os.RemoveAll(dir)
+	if os.Getenv("GOSYM_KEEP") == "" {
+		defer os.RemoveAll(dir)
+	}
 	writeReplayFiles(dir, pkg, h.Pkg, overlayFiles)
 	var labels []string
 	for l := range models {
